@@ -1,4 +1,5 @@
-import PGA.Proofs.UnitsTables
+import PGA.Proofs.UnitsTablesLive
+import PGA.Proofs.UnitsEval
 /-!
 # C10 — unit expressions evaluate to the exact SI value and dimension
 -/
@@ -27,8 +28,6 @@ theorem C10_tab_prefixes :
     (∀ pv ∈ liveCfg.prefixes, ∃ pk ∈ SI.prefixes, pk.1 = pv.1) :=
   checkPrefixes_sound (by decide +kernel)
 
-theorem checkAllUnits_live : checkAllUnits liveCfg = true := by decide +kernel
-
 /-- Table obligation **T1**: for every unit `r` of the SI reference and every SI prefix `p = 10^k` (and no prefix,
 `k = 0`), unless `p ++ r.name` is itself a unit name, `lookup (p ++ r.name)` is an exact magnitude within the entry's
 tolerance of `10^k · r.value` (tolerance 0: equal) with exactly the reference dimension. -/
@@ -51,5 +50,54 @@ theorem C10_tab_gas_constant : checkGasConstant = true := by decide +kernel
 positive and the snapping threshold is strictly between 0 and 1/2 (hypotheses of the general theorems, discharged
 for the live tables). -/
 theorem C10_tab_db_integral : checkIntegral liveCfg = true := by decide +kernel
+
+/-! ## T3 — every token list ends in a value, the units parse error or an arithmetic error -/
+
+/-- **T3** For every configuration (any unit database, prefix table, threshold) and every token list of any length
+whose number tokens respect the interpreter's digit limit: evaluation never ends in an internal outcome (the
+model's recursion budget, `ValueError`, a complex number, `KeyError`, `AttributeError`) nor in the units error. -/
+theorem C10_no_internal_outcome (cfg : Cfg) (ts : List Tok) (hd : ∀ t ∈ ts, t.digitsOK) :
+    (∀ k, evalTokens cfg ts ≠ .error (.internal k)) ∧ evalTokens cfg ts ≠ .error .unitsError := by
+  have key : ∀ e, evalTokens cfg ts = .error e → e = .unitsParse ∨ e = .math := by
+    intro e h
+    simp only [evalTokens, bind, Except.bind] at h
+    split at h
+    · next e' he =>
+      injection h with h; subst h
+      rcases parseTokens_errors ts e' he with hp | ⟨_, t, hm, hb⟩
+      · exact Or.inl hp
+      · exact absurd (hd t hm) hb
+    · next t ht => exact evalTree_error cfg t e h
+  refine ⟨fun k h => ?_, fun h => ?_⟩
+  · rcases key _ h with h' | h' <;> cases h'
+  · rcases key _ h with h' | h' <;> cases h'
+
+example : ∀ t ∈ [Tok.word ['m'], .sym '^', .num true ['2']], t.digitsOK := by
+  intro t ht
+  simp only [List.mem_cons, List.mem_nil_iff, or_false] at ht
+  rcases ht with rfl | rfl | rfl <;> simp [Tok.digitsOK] <;> decide
+
+/-- **T3** Exactly one of the three outcomes. -/
+theorem C10_outcome_trichotomy (cfg : Cfg) (ts : List Tok) (hd : ∀ t ∈ ts, t.digitsOK) :
+    (∃ v, evalTokens cfg ts = .ok v) ∨ evalTokens cfg ts = .error .unitsParse ∨ evalTokens cfg ts = .error .math := by
+  have h := C10_no_internal_outcome cfg ts hd
+  cases hr : evalTokens cfg ts with
+  | ok v => exact Or.inl ⟨v, rfl⟩
+  | error e =>
+    cases e with
+    | unitsParse => exact Or.inr (Or.inl rfl)
+    | math => exact Or.inr (Or.inr rfl)
+    | unitsError => exact absurd hr h.2
+    | internal k => exact absurd hr (h.1 k)
+
+/-- **T3** A token list outside the grammar (the parser fails on it) is rejected with the units parse error — never
+with another exception — and an unknown name in a parsed tree likewise. -/
+theorem C10_malformed_rejected (cfg : Cfg) (ts : List Tok) (hd : ∀ t ∈ ts, t.digitsOK) (e : Err)
+    (h : parseTokens ts = .error e) : evalTokens cfg ts = .error .unitsParse := by
+  rcases parseTokens_errors ts e h with hp | ⟨_, t, hm, hb⟩
+  · subst hp; simp [evalTokens, h, bind, Except.bind]
+  · exact absurd (hd t hm) hb
+
+example : parseTokens [Tok.word ['m'], .sym '^'] = .error .unitsParse := by decide +kernel
 
 end PGA.Units
